@@ -148,6 +148,9 @@ def _sweeps_estimate(ms):
                         for row in a + b: row[c2] -= f * row[c]
         if not ok: continue
         t = math.sqrt(float(sum(x * x for r in b for x in r)))
+        # W1 singular to working precision (a dominant eigenvector orthogonal to span(e_1..e_p) up to rounding): the coupling the iteration
+        # starts from is rounding noise, anything between 2^-57 and 2^-49 that the input does not determine; the estimate takes the smallest
+        if t > 2.0 ** 49: t = max(t, 2.0 ** 57)
         worst = max(worst, math.log(max(t, 1.0) * 1e12) / math.log(abs(lam[p - 1]) / abs(lam[p])))
     return worst
 
@@ -214,6 +217,7 @@ def _ref_pivots(ms):
 #   iterate-norm-overflow (Eigensystem): the same Norm applied to M_inv b, of length 1 / (1e-8 |M|), i.e. |M| <= 1e8 2^-505.
 #   slow-reordering (exit of Eigenvalues): a priori estimate of the sweeps of the unshifted iteration (_sweeps_estimate) >= 195 of the 200 allowed.
 #   det-underflow: Matrix::Inverse refuses a matrix whose Laplace determinant underflows (exact |det| below the underflow allowance).
+#   start-vector-eigenvector (Eigensystem): the fixed start vector (1, 1/2, .., 1/n) of the inverse iteration is an eigenvector of M to rounding.
 _HI, _LO = 510.0, -505.0
 
 
@@ -237,6 +241,17 @@ def _shifted_det_underflows(ref, nms, e):
         lg = math.fsum(_log2(abs(ref[j] - sh)) for j in range(n)) + n * e
         if lg < -1074 + math.log2(2 * _det_allow(n)): return True
     return False
+
+
+def _start_vector_is_eigenvector(ms, nms):
+    """Is the start vector b0 = (1, 1/2, .., 1/n) / |..| of the inverse iteration an eigenvector of the (normalised) matrix up to the rounding
+    of the matrix entries, |M b0 - (b0 . M b0) b0| <= 64 n eps |M|?  Then M_inv b0 is parallel to b0, the first step changes b by less than
+    1e-15 and the loop stops at b0, whichever eigenvalue was asked for (coq: C15_inverse_iteration_stays_at_eigen_start)."""
+    n = len(ms)
+    if n < 2: return False
+    b0 = [1.0 / (1.0 + i) for i in range(n)]; nb = math.sqrt(math.fsum(x * x for x in b0)); b0 = [x / nb for x in b0]
+    mb = [math.fsum(ms[i][j] * b0[j] for j in range(n)) for i in range(n)]; rho = math.fsum(x * y for x, y in zip(b0, mb))
+    return math.sqrt(math.fsum((x - rho * y) ** 2 for x, y in zip(mb, b0))) <= 64 * n * EPS * nms
 
 
 # ---------------------------------------------------------------- generators
@@ -326,8 +341,9 @@ def _rotate_rows(q, i, j, th):
     q[i], q[j] = qi, qj
 
 
-def _gen_sym(rng, n):
-    lam = _gen_spectrum(rng, n)
+def _gen_sym(rng, n, lam=None):
+    """(matrix, spectrum, tag); lam: prescribed spectrum (default: a random one)"""
+    lam = _gen_spectrum(rng, n) if lam is None else list(lam)
     kind = rng.random()
     if n == 1 or kind < 0.12:
         rng.shuffle(lam); q = [[1.0 if i == j else 0.0 for j in range(n)] for i in range(n)]; tag = "diagonal"
@@ -353,6 +369,173 @@ def _gen_sym(rng, n):
     else:
         q = _rand_orth(rng, n); tag = "dense"
     return _sym_from(q, lam), lam, tag
+
+
+# ---- structured spectra: linear relations between the eigenvalues and the ends of the ratio range
+def _ratio_list(rng, n, mode):
+    """n - 1 neighbouring magnitude ratios |lambda_(k+1) / lambda_k| inside the quantifier's range 0.1 .. 0.8"""
+    if mode == "slowest": return [0.8] * (n - 1)
+    if mode == "fastest": return [0.1] * (n - 1)
+    if mode == "slow": return [rng.uniform(0.7, 0.8) for _ in range(n - 1)]
+    if mode == "dyadic": return [rng.choice([0.5, 0.25, 0.125, 0.75, 0.625, 0.375]) for _ in range(n - 1)]
+    r = [rng.uniform(0.1, 0.8) for _ in range(n - 1)]
+    if mode == "one-slow" and r: r[rng.randrange(n - 1)] = rng.uniform(0.73, 0.8)
+    return r
+
+
+def _mags(ratios):
+    m = [1.0]
+    for r in ratios: m.append(m[-1] * r)
+    return m
+
+
+def _traceless(rng, n, mode):
+    """signed spectrum with neighbouring magnitude ratios in 0.1 .. 0.8 whose sum is zero (to the rounding of the sum): the tail
+    lambda_j .. lambda_(n-1) of a random signed spectrum is rescaled by the factor that cancels the head, accepted when the ratio at
+    the junction stays inside the range (all other ratios are those of `mode`).  None when n < 3 (two eigenvalues of different magnitude
+    cannot cancel) or no attempt was accepted."""
+    if n < 3: return None
+    for _ in range(200):
+        m = _mags(_ratio_list(rng, n, mode)); s = [rng.choice([1.0, -1.0]) for _ in range(n)]
+        for j in rng.sample(range(1, n), n - 1):
+            a = math.fsum(s[k] * m[k] for k in range(j)); b = math.fsum(s[k] * m[k] for k in range(j, n))
+            if a == 0.0 or b == 0.0: continue
+            c = -a / b
+            if c > 0 and 0.11 <= c * m[j] / m[j - 1] <= 0.8:
+                return [s[k] * m[k] * (c if k >= j else 1.0) for k in range(n)]
+    return None
+
+
+def _int_spectrum(rng, n, want_traceless):
+    """small-integer spectrum (magnitudes <= 10^4) with ratios in 0.1 .. 0.8, signs of either kind; want_traceless: integer sum 0"""
+    for _ in range(400):
+        m = [rng.randint(1, 4)]
+        ok = True
+        for _k in range(n - 1):
+            lo = math.ceil(m[-1] / 0.8 - 1e-9); hi = math.floor(m[-1] / 0.1 + 1e-9)
+            lo = max(lo, m[-1] + 1); hi = min(hi, max(lo, 3 * m[-1] + 2))
+            m.append(rng.randint(lo, hi))
+            if m[-1] > 10000: ok = False; break
+        if not ok: continue
+        m.reverse(); lam = [float(x) * rng.choice([1.0, -1.0]) for x in m]
+        if all(0.1 <= abs(b / a) <= 0.8 for a, b in zip(lam, lam[1:])) and (not want_traceless or (n >= 3 and sum(lam) == 0.0)): return lam
+    return None
+
+
+def _gen_structured_spectrum(rng, n):
+    """(lam, tag): spectra inside the quantifier (ratios 0.1 .. 0.8, either sign) that carry a relation a random spectrum never has:
+    vanishing trace (exactly, or at a relative size from the ladder 1e-16 .. 1e-6), small integers, all ratios at an end of the range"""
+    kind = rng.random(); lam = None; tag = ""
+    mode = rng.choice(["slow", "slow", "one-slow", "any", "dyadic", "slowest"])
+    if kind < 0.40:
+        lam = _traceless(rng, n, mode); tag = "traceless"
+    elif kind < 0.55:
+        lam = _traceless(rng, n, mode); tag = "near-traceless"
+        if lam is not None:
+            # the largest eigenvalue grows by a relative amount from the ladder: trace / sum |lambda| = 1e-16 .. 1e-6 (the junction ratio only shrinks)
+            k0 = max(range(n), key=lambda k: abs(lam[k])); lam[k0] *= 1.0 + _rel(rng)
+    elif kind < 0.70:
+        lam = _int_spectrum(rng, n, rng.random() < 0.6); tag = "integer-spectrum"
+        if lam is not None and n >= 3 and sum(lam) == 0.0: tag = "traceless"
+        if lam is not None: return lam, tag + "-integer"
+    if lam is None:
+        mode = rng.choice(["slowest", "fastest", "slow", "dyadic"])
+        lam = [x * rng.choice([1.0, -1.0]) for x in _mags(_ratio_list(rng, n, mode))]; tag = "ratios-" + mode
+        if rng.random() < 0.3: lam = [abs(x) * (-1.0) ** k for k, x in enumerate(lam)]; tag += "-alternating"
+    sc = 10 ** rng.uniform(-2, 2) if rng.random() < 0.7 else float(rng.choice([1, 2, 3, 5, 12, 60]))
+    return [x * sc for x in lam], tag
+
+
+# ---- structured eigenvectors: directions tied to the vectors an iteration may start from
+def _start_candidates(n):
+    """natural start vectors of a power / inverse iteration (the library uses the harmonic one); an eigenvector orthogonal to the start
+    vector is reached only through rounding errors"""
+    return {"harmonic": [1.0 / (1.0 + i) for i in range(n)], "ones": [1.0] * n, "first": [1.0] + [0.0] * (n - 1),
+            "linear": [1.0 + i for i in range(n)], "alternating": [(-1.0) ** i for i in range(n)], "last": [0.0] * (n - 1) + [1.0]}
+
+
+def _pick_start(rng, n):
+    name = rng.choice(["harmonic"] * 6 + ["ones", "ones", "first", "linear", "alternating", "last"])
+    return name, _start_candidates(n)[name]
+
+
+def _orth_perp(rng, s, k):
+    """orthonormal rows of dimension len(s) whose first k rows (1 <= k <= len(s) - 1) are orthogonal to s; the other rows are a random
+    basis of the rest (for k = len(s) - 1 the last row is s / |s| itself)"""
+    n = len(s); ns = math.sqrt(math.fsum(x * x for x in s)); sh = [x / ns for x in s]
+    while True:
+        basis = [sh]; ok = True
+        for _ in range(n - 1):
+            v = [rng.gauss(0, 1) for _ in range(n)]
+            for _r in range(2):
+                for w in basis:
+                    d = math.fsum(x * y for x, y in zip(v, w)); v = [x - d * y for x, y in zip(v, w)]
+            nv = math.sqrt(math.fsum(x * x for x in v))
+            if nv < 1e-3: ok = False; break
+            basis.append([x / nv for x in v])
+        if ok: break
+    perp = basis[1:k + 1]; rest = [basis[0]] + basis[k + 1:]
+    if len(rest) > 1:
+        o = _rand_orth(rng, len(rest))
+        rest = [[math.fsum(o[a][b] * rest[b][j] for b in range(len(rest))) for j in range(n)] for a in range(len(rest))]
+    return perp + rest
+
+
+def _gen_structured_vectors(rng, n):
+    """(q, tag) for n >= 2, rows of q = eigenvectors: some of them orthogonal to a natural start vector (in all coordinates, or inside
+    a coordinate block), exactly or turned out of the orthogonal complement by an angle from the ladder 1e-16 .. 1e-6; or plane rotations
+    with small-integer direction ratios (the eigenvectors (a, b, 0, ..), (-b, a, 0, ..) of hand-written matrices)"""
+    kind = rng.random()
+    if kind < 0.45 or n == 2 and kind < 0.6:
+        name, s = _pick_start(rng, n)
+        k = rng.randint(1, n - 1) if rng.random() < 0.6 else 1
+        q = _orth_perp(rng, s, k); tag = f"perp-start-{name}"
+        if k == n - 1: tag += "-start-is-eigenvector"
+        if rng.random() < 0.35:                 # turned out of the orthogonal complement by an angle from the ladder
+            _rotate_rows(q, rng.randrange(k), rng.randrange(k, n), _rel(rng) * rng.choice([1.0, -1.0])); tag += "-ladder"
+        rng.shuffle(q)
+        return q, tag
+    if kind < 0.70 and n >= 3:
+        # the same inside one coordinate block (eigenvectors with zero components that are orthogonal to the start vector)
+        name, s = _pick_start(rng, n)
+        b = rng.randint(2, n - 1); idx = sorted(rng.sample(range(n), b)) if rng.random() < 0.5 else list(range(b))
+        sub = _orth_perp(rng, [s[i] for i in idx] if any(s[i] for i in idx) else [1.0] * b, rng.randint(1, b - 1))
+        others = [i for i in range(n) if i not in idx]
+        rest = _rand_orth(rng, len(others)) if len(others) > 1 and rng.random() < 0.5 else [[1.0 if i == j else 0.0 for j in range(len(others))] for i in range(len(others))]
+        q = []
+        for row in sub:
+            v = [0.0] * n
+            for a, i in enumerate(idx): v[i] = row[a]
+            q.append(v)
+        for row in rest:
+            v = [0.0] * n
+            for a, i in enumerate(others): v[i] = row[a]
+            q.append(v)
+        rng.shuffle(q)
+        return q, f"perp-start-{name}-in-block"
+    q = [[1.0 if i == j else 0.0 for j in range(n)] for i in range(n)]
+    for _ in range(rng.choice([1, 1, 1, 2, 3])):
+        i, j = rng.sample(range(n), 2)
+        a, b = rng.randint(1, 5), rng.randint(1, 5) * rng.choice([1, -1]); h = math.hypot(a, b)
+        c, s_ = a / h, b / h
+        qi = [c * x + s_ * y for x, y in zip(q[i], q[j])]; qj = [-s_ * x + c * y for x, y in zip(q[i], q[j])]
+        q[i], q[j] = qi, qj
+    rng.shuffle(q)
+    return q, "integer-planes"
+
+
+def _gen_structured_sym(rng, n):
+    """symmetric matrix with a structured spectrum, structured eigenvectors, or both"""
+    k = rng.random()
+    if n == 1: k = 0.0
+    if k < 0.35:
+        lam, t1 = _gen_structured_spectrum(rng, n); m, _, t2 = _gen_sym(rng, n, lam); tags = ["spectrum-" + t1, t2]
+    elif k < 0.75:
+        lam = _gen_spectrum(rng, n); rng.shuffle(lam); q, t2 = _gen_structured_vectors(rng, n); m = _sym_from(q, lam); tags = ["vectors-" + t2]
+    else:
+        lam, t1 = _gen_structured_spectrum(rng, n); rng.shuffle(lam); q, t2 = _gen_structured_vectors(rng, n); m = _sym_from(q, lam)
+        tags = ["spectrum-" + t1, "vectors-" + t2]
+    return m, lam, ["structured"] + tags
 
 
 def generate(rng, tier):
@@ -423,6 +606,19 @@ def generate(rng, tier):
         cs.append(Case(_mline("eigensystem", m), ["eigensystem"] + tags, tol=(1e-7, ta), info={"lam": lam}))
         if rng.random() < 0.15: cs.append(Case(_mline("eigenvectors", m), ["eigenvectors"] + tags, tol=(1e-7, ta), info={"lam": lam}))
         if rng.random() < 0.10: cs.append(Case(_mline("history", m), ["history"] + tags, tol=(1e-7, ta), info={"lam": lam}))
+    # ---- structured spectra (traceless, nearly traceless, small integers, all ratios at an end of the range) and structured eigenvectors
+    #      (orthogonal to a natural start vector of the inverse iteration, exactly / at 1e-16 .. 1e-6 / inside a coordinate block; small-integer planes)
+    for k in range(2500 if big else 200):
+        n = rng.choice([2, 3, 3, 3, 4, 4, 5, 6, 7])
+        m, lam, tags = _gen_structured_sym(rng, n)
+        tags = tags + [f"n={n}"]
+        if k % 5 == 0:
+            e, st = _pick_scale(rng, tame=True); m, e = _scale_finite(m, e); lam = [_ldexp(x, e) for x in lam]; tags.append(st)
+        ta = 0.0 if tags[-1].startswith("scale") else 1e-300
+        cs.append(Case(_mline("eigensystem", m), ["eigensystem"] + tags, tol=(1e-7, ta), info={"lam": lam}))
+        if k % 2 == 0 or any(t.startswith("spectrum-") for t in tags): cs.append(Case(_mline("eigenvalues", m), ["eigenvalues"] + tags, tol=(1e-9, ta), info={"lam": lam}))
+        if rng.random() < 0.15: cs.append(Case(_mline("eigenvectors", m), ["eigenvectors"] + tags, tol=(1e-7, ta), info={"lam": lam}))
+        if rng.random() < 0.06: cs.append(Case(_mline("history", m), ["history"] + tags, tol=(1e-7, ta), info={"lam": lam}))
     for m in ([[2.0, 0.0, 0.0], [0.0, 3.0, 0.0], [0.0, 0.0, 5.0]], [[4.0]], [[2.0, 1.0], [1.0, 2.0]],
               [[2.0, -1.0, 0.0], [-1.0, 2.0, -1.0], [0.0, -1.0, 2.0]], [[4.0, 1.0, 0.0], [1.0, 3.0, 0.0], [0.0, 0.0, 1.0]]):
         cs.append(Case(_mline("eigenvalues", m), ["eigenvalues", "special"], tol=(1e-9, 1e-300)))
@@ -486,7 +682,7 @@ def nontrivial(c, io):
         if not lam: return True
         srt = sorted((abs(x) for x in lam), reverse=True)
         ratio = max((b / a for a, b in zip(srt, srt[1:])), default=0.0)
-        return ratio > 0.5 or any(t.startswith(("diagonal", "block", "near-diagonal")) for t in c.tags) or (min(lam) < 0 < max(lam)) or abs(e) > 12
+        return ratio > 0.5 or any(t.startswith(("diagonal", "block", "near-diagonal", "structured")) for t in c.tags) or (min(lam) < 0 < max(lam)) or abs(e) > 12
     return False
 
 
@@ -603,6 +799,8 @@ def predicates(c, io):
         reg = _norm_region(min(abs(x) for x in ref), nms, e)
         # Eigensystem only: the inverse-iteration vector M_inv b has length up to 1 / (1e-8 |M|) before it is normalised
         reg_sys = reg or (":iterate-norm-overflow" if _log2(nms) + e <= math.log2(1e8) - 505.0 else "")
+        # Eigensystem only: the start vector of the inverse iteration is itself an eigenvector (the loop then never leaves it)
+        reg_sys = reg_sys or (":start-vector-eigenvector" if _start_vector_is_eigenvector(ms, nms) else "")
         if timeout: return [(f"{pre}:timeout" + reg, f"{op} did not terminate within the time bound")]
         if exited:
             # the 200 sweeps of the unshifted iteration are known not to suffice where the a priori estimate of the sweep count exceeds them
